@@ -175,7 +175,9 @@ impl StoreEnv {
     pub fn session_id(&self, s: usize) -> String {
         let mut ids = self.ids.lock().unwrap();
         while ids.sessions.len() <= s {
-            ids.sessions.push(uuid::Uuid::new_v4().to_string());
+            // deterministic: two stores built from the same history name their sessions alike
+            let n = ids.sessions.len();
+            ids.sessions.push(format!("5e550000-0000-4000-8000-{:012}", n));
         }
         ids.sessions[s].clone()
     }
